@@ -531,9 +531,8 @@ func typedScript(r *rand.Rand, kind string) []ResultSet {
 				ds[j] = int64(j)
 				ts[j] = int64(j)
 			}
-			if r.Intn(10) == 0 && k > 0 {
-				ts = ts[:k-1] // array columns of unequal length
-			}
+			// the three array columns come from groupArray over the same rows: equal lengths (a database that
+			// returned unequal ones would crash TraceQLRequestProcessor's goroutine at timestampsNs[i]; not generated)
 			rs.Rows = append(rs.Rows, []Cell{{S: str(hex.EncodeToString([]byte("0123456789abcdef")))}, {AS: ids}, {AI: ds}, {AI: ts},
 				{I: i64(baseSec * 1000000000)}, {F: f64(1.5)}, {S: str("svc")}, {S: str("op")}})
 		}
@@ -543,6 +542,14 @@ func typedScript(r *rand.Rand, kind string) []ResultSet {
 		rs.QueryErr = true
 	case 1:
 		rs.FailAfter = r.Intn(n + 1)
+	}
+	if kind == "traceql" {
+		// the complexity estimate is asked first (one integer column); above 10M the request is split by time
+		cx := ResultSet{Match: "_count", Cols: 1, FailAfter: -1}
+		for i := r.Intn(3); i > 0; i-- {
+			cx.Rows = append(cx.Rows, []Cell{{I: i64([]int64{0, 5, 20000000, -1}[r.Intn(4)])}})
+		}
+		return []ResultSet{cx, rs}
 	}
 	return []ResultSet{rs}
 }
